@@ -537,7 +537,7 @@ class TransportSim:
         # a one-way or two-way blackout that starts the moment the server accepts the connection (its whole
         # first flight and the retransmissions are lost while the client's first Initial got through)
         cfg["blackout_on_accept"] = None
-        if "blackout" in on and p.get("blackout_on_accept_p") and c.chance(p["blackout_on_accept_p"]):
+        if on and p.get("blackout_on_accept_p") and c.chance(p["blackout_on_accept_p"]):
             cfg["blackout_on_accept"] = (0.2 + 4.0 * c.choose(8) / 8.0, (None, "server")[c.choose(2)])
         cfg["rebinds"] = []
         if "rebind" in on:
@@ -644,6 +644,9 @@ class TransportSim:
         cert = p["server_cert"]
         if cert is None:
             cert = ("server_ed25519", "server_ed25519", "server_ed25519", "chain2", "chain5")[c.choose(5)]
+            if p.get("big_cert_p") and c.chance(p["big_cert_p"]):
+                # a Certificate message of 8 or 16 kB: first flight of many datagrams
+                cert = ("bigchain8k", "bigchain16k")[c.choose(2)]
         cfg["server_cert"] = cert
         return cfg
 
